@@ -159,7 +159,7 @@ func c14World(rc *kernel.RunCtx) {
 					r.got, r.err = o.got, o.err
 					r.fired = o.w.fired || o.env.Fired != ""
 				case "shared":
-					w := &core{park: park}
+					w := &core{park: park, limit: 4 << 20}
 					r.err = shared[r.Spec].Render(context.Background(), w.as(kn.WKind))
 					r.got = w.got
 				case "http":
@@ -175,6 +175,18 @@ func c14World(rc *kernel.RunCtx) {
 		k.Quiesce()
 		ps := k.ParkedList()
 		if len(ps) == 0 {
+			break
+		}
+		runaway := false
+		for _, p := range ps {
+			if p.Kind == "runaway" {
+				runaway = true
+			}
+		}
+		if runaway || k.Steps > 100*maxSteps {
+			// the parked tasks are abandoned; the worker process is restarted after this run
+			rc.Fail("C14/render-does-not-terminate", "a render wrote more than %d bytes or needed %d scheduler steps (runaway recursion)", 4<<20, k.Steps)
+			rc.Res.Restart = true
 			break
 		}
 		if burst {
